@@ -66,6 +66,9 @@ def build_spectro(root, sp):
             flux[i] = (5 + 2*np.sin(x/(10.0 + i)) + 0.5*np.cos(x/(3.0 + 0.5*i)) + i +
                        rng.normal(0, 0.1, npix))
         ivar = np.ones((nfib, npix), dtype='f4')*4
+        if pl.get('nan_flux'):
+            flux[0, 40:43] = np.nan
+            flux[nfib - 1, 7] = np.inf
         nbad = pl.get('nbadpix', 0)
         if nbad:
             ivar[:, 5:5+nbad] = 0
